@@ -45,7 +45,7 @@ func vfC08Gen(rt *rapid.T) vfC08Case {
 			n++
 			nLive++
 			refs = append(refs, n-1)
-			return vfStoreOp{Op: "add", Doc: vfGenStoreDoc(rt, g, n, explicit)}
+			return vfStoreOp{Op: "add", Doc: vfMaybeLacks(rt, &c.Conf, vfGenStoreDoc(rt, g, n, explicit))}
 		case w < 41 && len(refs) > 0:
 			// remove: mostly the most recent documents (only the active memtable accepts removals)
 			j := len(refs) - 1
@@ -301,13 +301,13 @@ func vfC08Run(c vfC08Case, ctx *vfCtx) *vfViolation {
 			for _, r := range res {
 				got[r.ID] = true
 			}
-			for id := range live {
-				if !got[id] {
+			for id, d := range live {
+				if d.hasText(&conf) && !got[id] {
 					return fail("op %d (%s): live document %d is not returned by the text query \"common\" (k = all)", i, op.Op, id)
 				}
 			}
 			for id := range got {
-				if _, ok := live[id]; !ok {
+				if d, ok := live[id]; !ok || !d.hasText(&conf) {
 					return fail("op %d (%s): text query returns id %d which is not live (removed=%v, ever added=%v)", i, op.Op, id, everAdded[id], everAdded[id])
 				}
 			}
@@ -323,14 +323,65 @@ func vfC08Run(c vfC08Case, ctx *vfCtx) *vfViolation {
 					got[r.ID] = true
 				}
 				for id, d := range live {
-					if d.N%3 == tag && !got[id] {
+					if d.hasMeta(&conf) && d.N%3 == tag && !got[id] {
 						return fail("op %d (%s): live document %d is not returned by the metadata filter tag=t%d (k = all)", i, op.Op, id, tag)
 					}
 				}
 				for id := range got {
-					if d, ok := live[id]; !ok || d.N%3 != tag {
+					if d, ok := live[id]; !ok || d.N%3 != tag || !d.hasMeta(&conf) {
 						return fail("op %d (%s): metadata filter tag=t%d returns id %d which is not a live document with that tag", i, op.Op, tag, id)
 					}
+				}
+			}
+		}
+		// mixed modalities (k = all): the id set is determined by the live documents alone
+		mixed := func(what string, res []HybridSearchResult, err error, want func(d *vfStoreDoc) bool) *vfViolation {
+			if err != nil {
+				return fail("op %d: %s search failed: %v", i, what, err)
+			}
+			got := map[uint32]bool{}
+			for _, r := range res {
+				if got[r.ID] {
+					return fail("op %d (%s): the %s query returns id %d twice", i, op.Op, what, r.ID)
+				}
+				got[r.ID] = true
+			}
+			for id, d := range live {
+				if want(d) != got[id] {
+					return fail("op %d (%s): %s query (k = all): live document %d (n=%d) returned=%v, expected %v (%d memtables, %d segments)", i, op.Op, what, id, d.N, got[id], want(d), vfStoreMemtableCount(st), vfStoreSegmentCount(st))
+				}
+			}
+			for id := range got {
+				if _, ok := live[id]; !ok {
+					return fail("op %d (%s): the %s query returns id %d which is not live", i, op.Op, what, id)
+				}
+			}
+			return nil
+		}
+		tag := i % 3
+		qv := make([]float32, conf.Dim)
+		qv[0] = 1
+		if conf.HasMeta {
+			res, err := st.NewSearch().WithVector(vfCloneF32(qv)).WithMetadata(Eq("tag", fmt.Sprintf("t%d", tag))).WithK(vfBigK).WithNProbes(1000).Execute()
+			if v := mixed("vector + metadata", res, err, func(d *vfStoreDoc) bool { return d.hasVec(&conf) && d.hasMeta(&conf) && d.N%3 == tag }); v != nil {
+				return v
+			}
+			res, err = st.NewSearch().WithVector(vfCloneF32(qv)).WithMetadataGroups(&FilterGroup{Logic: AND, Filters: []Filter{Eq("tag", fmt.Sprintf("t%d", tag))}}, &FilterGroup{Logic: AND, Filters: []Filter{Exists("p")}}).WithK(vfBigK).WithNProbes(1000).Execute()
+			if v := mixed("vector + metadata groups", res, err, func(d *vfStoreDoc) bool { return d.hasVec(&conf) && d.hasMeta(&conf) && (d.N%3 == tag || d.N%3 == 1) }); v != nil {
+				return v
+			}
+		}
+		if conf.HasMeta && conf.HasText {
+			res, err := st.NewSearch().WithText("fox").WithMetadata(Eq("tag", fmt.Sprintf("t%d", tag))).WithK(vfBigK).Execute()
+			if v := mixed("text + metadata", res, err, func(d *vfStoreDoc) bool { return d.hasText(&conf) && d.hasMeta(&conf) && d.N%3 == tag && d.Word == "fox" }); v != nil {
+				return v
+			}
+		}
+		if conf.HasText {
+			for _, fk := range []FusionKind{WeightedSumFusion, ReciprocalRankFusion} {
+				res, err := st.NewSearch().WithVector(vfCloneF32(qv)).WithText("zeta").WithFusionKind(fk).WithK(vfBigK).WithNProbes(1000).Execute()
+				if v := mixed("vector + text ("+string(fk)+")", res, err, func(d *vfStoreDoc) bool { return d.hasVec(&conf) || d.hasText(&conf) && d.Word == "zeta" }); v != nil {
+					return v
 				}
 			}
 		}
@@ -360,13 +411,18 @@ func vfC08Run(c vfC08Case, ctx *vfCtx) *vfViolation {
 			live[id] = d
 			addIDs = append(addIDs, id)
 			text, meta := "", map[string]interface{}(nil)
-			if conf.HasText {
+			if d.hasText(&conf) {
 				text = d.text()
 			}
-			if conf.HasMeta {
+			if d.hasMeta(&conf) {
 				meta = d.meta()
 			}
-			if err := ref.AddWithID(id, vfCloneF32(d.Vec), text, meta); err != nil {
+			var refVec []float32
+			if d.hasVec(&conf) {
+				refVec = vfCloneF32(d.Vec)
+			}
+			ctx.ClassIf(d.Lacks != "", "document_lacking_a_modality")
+			if err := ref.AddWithID(id, refVec, text, meta); err != nil {
 				return vfFail("op %d: the in-memory reference rejected the document: %v", i, err)
 			}
 			if flushedSinceAdd {
